@@ -7,7 +7,7 @@
      replyOfflineTopicSetSub (server/hub.go),
    for sessions of level Auth or Root.  Users, sessions are N tokens; a p2p topic name is the
    ordered pair of the two ids it encodes (Pure/P2PName.v: p2p_name is injective on unordered
-   pairs and parse_p2p returns the pair).  Definitions only; proofs in TopicKindsProofs.v. *)
+   pairs and parse_p2p returns the pair).  Definitions only; proofs in TopicKindsC07Proofs.v. *)
 From Coq Require Import ZArith NArith List Bool.
 From Tinode Require Import Base.Util Pure.Acs Sys.Topic.
 Import ListNotations.
